@@ -23,6 +23,8 @@ type Log = Rc<RefCell<Vec<Value>>>;
 struct ScriptedReader {
     data: Vec<u8>,
     pos: usize,
+    /// exact: the script is the whole schedule (calls beyond it return 0)
+    exact: bool,
     script: Vec<usize>,
     calls: usize,
     fail_at: Option<usize>,
@@ -37,7 +39,9 @@ impl io::Read for ScriptedReader {
             self.log.borrow_mut().push(json!(["rfail", buf.len()]));
             return Err(io::Error::new(io::ErrorKind::Other, "injected read failure"));
         }
-        let want = if self.script.is_empty() {
+        let want = if self.exact {
+            *self.script.get(k).unwrap_or(&0)
+        } else if self.script.is_empty() {
             buf.len()
         } else {
             self.script[k % self.script.len()]
@@ -75,6 +79,7 @@ impl io::Write for RecWriter {
 }
 
 pub struct Plan {
+    pub exact: bool,
     pub stream: Vec<u8>,
     pub cap: usize, // 0 = default capacity (no override)
     pub script: Vec<usize>,
@@ -97,6 +102,7 @@ pub fn run_replace(ac: &AhoCorasick, p: &Plan) -> Value {
         data: p.stream.clone(),
         pos: 0,
         script: p.script.clone(),
+        exact: p.exact,
         calls: 0,
         fail_at: p.rfail,
         log: log.clone(),
@@ -163,6 +169,7 @@ pub fn run_replace_table(ac: &AhoCorasick, p: &Plan, rep: &[Vec<u8>]) -> Value {
         data: p.stream.clone(),
         pos: 0,
         script: p.script.clone(),
+        exact: p.exact,
         calls: 0,
         fail_at: p.rfail,
         log: log.clone(),
@@ -191,6 +198,7 @@ pub fn run_find(ac: &AhoCorasick, p: &Plan) -> Value {
         data: p.stream.clone(),
         pos: 0,
         script: p.script.clone(),
+        exact: p.exact,
         calls: 0,
         fail_at: p.rfail,
         log: log.clone(),
@@ -254,7 +262,7 @@ fn ctx_line(out: &mut Out, shard: usize, c: &Ctx, min: usize) -> usize {
 ///  enum   exhaustive: non-empty pattern lists F(2,2) x streams <= 4 x caps min+1..3 x all
 ///         read scripts (cyclic, length 3, sizes 1..3) x every read fault x every write fault
 ///  rand   seeded: longer streams, random scripts, capacities from min+1 to default
-pub fn run(out_prefix: &str, shards: usize, family: &str, seed: u64, scale: usize, faults: bool, maxstream: usize, sizes: &[usize]) -> StreamStats {
+pub fn run(out_prefix: &str, shards: usize, family: &str, seed: u64, scale: usize, faults: bool, maxstream: usize, sizes: &[usize], replay_file: &str) -> StreamStats {
     let mut out = Out::create(out_prefix, shards);
     let mut st = StreamStats { contexts: 0, events: 0 };
     let mut shard = 0usize;
@@ -277,7 +285,7 @@ pub fn run(out_prefix: &str, shards: usize, family: &str, seed: u64, scale: usiz
                 for stream in &streams {
                     for x in 1..=3usize {
                         for script in &scripts {
-                            let base = Plan { stream: stream.clone(), cap: min + x, script: script.clone(), rfail: None, wfail: None };
+                            let base = Plan { exact: false, stream: stream.clone(), cap: min + x, script: script.clone(), rfail: None, wfail: None };
                             let mut v = run_replace(&ac, &base);
                             let nreads = v["ops"].as_array().unwrap().iter().filter(|o| o[0] == "r").count();
                             let nemit = v["ops"].as_array().unwrap().iter().filter(|o| o[0] == "w" || o[0] == "m").count();
@@ -340,7 +348,7 @@ pub fn run(out_prefix: &str, shards: usize, family: &str, seed: u64, scale: usiz
                     let slen = rg.gen_range(1..=4);
                     let maxsz = if cap == 0 { 70 } else { cap + 2 };
                     let script: Vec<usize> = (0..slen).map(|_| rg.gen_range(1..=maxsz)).collect();
-                    let base = Plan { stream, cap, script, rfail: None, wfail: None };
+                    let base = Plan { exact: false, stream, cap, script, rfail: None, wfail: None };
                     let mut v = run_replace(&ac, &base);
                     let nreads = v["ops"].as_array().unwrap().iter().filter(|o| o[0] == "r").count();
                     let nemit = v["ops"].as_array().unwrap().iter().filter(|o| o[0] == "w" || o[0] == "m").count();
@@ -379,6 +387,53 @@ pub fn run(out_prefix: &str, shards: usize, family: &str, seed: u64, scale: usiz
                 shard += 1;
             }
         }
+        // B4: behaviours generated by TLC from spec/GenStream.tla (one JSON object per line:
+        // pats, stream, cap, reads, rfail, wfail, end, matches, out), sorted by pats
+        "replay" => {
+            let text = std::fs::read_to_string(replay_file).expect("replay file");
+            let mut last_pats: Option<Pats> = None;
+            let mut cl = 0usize;
+            let mut acs: Option<AhoCorasick> = None;
+            for (li, line) in text.lines().enumerate() {
+                let v: Value = serde_json::from_str(line).expect("replay line");
+                let pats: Pats = serde_json::from_value(v["pats"].clone()).unwrap();
+                if last_pats.as_ref() != Some(&pats) {
+                    shard += 1;
+                    let repr = ["top-nc", "top-c", "top-dfa", "top-auto"][li % 4];
+                    let mut c = Ctx::new(&pats, "std", repr);
+                    c.sk = "unanchored";
+                    let ac = build_top(&c).expect("build");
+                    let min = ac.max_pattern_len().max(1);
+                    cl = ctx_line(&mut out, shard, &c, min);
+                    st.contexts += 1;
+                    acs = Some(ac);
+                    last_pats = Some(pats.clone());
+                }
+                let ac = acs.as_ref().unwrap();
+                let rf = v["rfail"].as_i64().unwrap();
+                let wf = v["wfail"].as_i64().unwrap();
+                let p = Plan {
+                    exact: true,
+                    stream: serde_json::from_value(v["stream"].clone()).unwrap(),
+                    cap: v["cap"].as_u64().unwrap() as usize,
+                    script: serde_json::from_value(v["reads"].clone()).unwrap(),
+                    rfail: if rf < 0 { None } else { Some(rf as usize) },
+                    wfail: if wf < 0 { None } else { Some(wf as usize) },
+                };
+                let mut r = run_replace(ac, &p);
+                r["c"] = json!(cl);
+                r["expect"] = json!({"end": v["end"], "matches": v["matches"], "out": v["out"]});
+                out.put(shard, &r);
+                st.events += 1;
+                if p.wfail.is_none() {
+                    let mut f = run_find(ac, &p);
+                    f["c"] = json!(cl);
+                    f["expect"] = json!({"end": v["end"], "matches": v["matches"], "out": v["out"]});
+                    out.put(shard, &f);
+                    st.events += 1;
+                }
+            }
+        }
         other => panic!("unknown stream family {}", other),
     }
     out.finish();
@@ -386,5 +441,5 @@ pub fn run(out_prefix: &str, shards: usize, family: &str, seed: u64, scale: usiz
 }
 
 fn clone_plan(p: &Plan) -> Plan {
-    Plan { stream: p.stream.clone(), cap: p.cap, script: p.script.clone(), rfail: p.rfail, wfail: p.wfail }
+    Plan { exact: p.exact, stream: p.stream.clone(), cap: p.cap, script: p.script.clone(), rfail: p.rfail, wfail: p.wfail }
 }
